@@ -19,7 +19,7 @@ func init() {
 			"NOT decided: credential parsing and password checks, grant/revoke semantics, what the authorisation sinks compute.",
 		Assumptions: commonAssumptions,
 		Technique:   "static analysis: exhaustive enumeration of typed composite literals (route table), signature classification, parameter-use dataflow to authorisation sinks, branch-returns contracts",
-		Rules:       "C19.R1 R2 R3 R4 R5 R6",
+		Rules:       "C19.R1 R2 R3 R4 R5 R6 R7 R8",
 	}
 }
 
@@ -694,4 +694,79 @@ func performsNoAction(f *an.Fn) (bool, string) {
 	}
 	sort.Strings(l)
 	return ok && len(names) > 0, strings.Join(l, ",")
+}
+
+func init() {
+	old := All["C19"].Run
+	All["C19"].Run = func(c *an.Ctx) {
+		old(c)
+		c19everyPrivilege(c)
+	}
+}
+
+// c19everyPrivilege:
+//   R7  statement authorisation checks EVERY required privilege of EVERY
+//       statement (each one is either tested or the request is refused);
+//       nothing learnt from an earlier privilege excuses a later one.
+//   R8  the write authoriser asks the meta client for the user on every call and
+//       tests the write privilege of what it got; authorisers keep no state of
+//       their own (a remembered user survives REVOKE / DROP USER).
+func c19everyPrivilege(c *an.Ctx) {
+	const M = "lib/util/lifted/influx/meta"
+	const A = "lib/util/lifted/influx/auth"
+	r := c.Rule("C19.R7", "K-LOOPSELECT", M+":(*UserInfo).AuthorizeQuery — every required privilege of every statement is tested or the request refused")
+	if f := fn(r, M+":UserInfo.AuthorizeQuery"); f != nil {
+		ad := f.Find(call(r, M+":UserInfo.AuthorizeDatabase"))
+		rp := f.Find(an.MNode("stmt.RequiredPrivileges()", func(g *an.Fn, n ast.Node) bool {
+			ce, ok := n.(*ast.CallExpr)
+			if !ok {
+				return false
+			}
+			sel, ok := ce.Fun.(*ast.SelectorExpr)
+			return ok && sel.Sel.Name == "RequiredPrivileges"
+		}))
+		if !r.Failed() {
+			f.LoopVisitsAllOrFails(r, ad, "each required privilege is tested with AuthorizeDatabase (or the request is refused)")
+			f.LoopVisitsAllOrFails(r, rp, "the required privileges of each statement are computed (or the request is refused)")
+			f.FailurePropagates(r, rp, "a statement whose privileges cannot be computed is refused")
+			// a refused privilege refuses the request
+			for _, s := range ad.List {
+				one := &an.Sites{F: f, Desc: "AuthorizeDatabase", List: []an.Site{s}}
+				_ = one
+			}
+			f.BranchReturns(r, an.AtomLike(`^recv\.AuthorizeDatabase\(`, false), an.MReturn("of an authorisation error", func(g *an.Fn, rs *ast.ReturnStmt) bool {
+				return len(rs.Results) == 1 && !an.IsNilIdent(g.Info, rs.Results[0])
+			}), "a privilege the user lacks refuses the request")
+		}
+	}
+
+	r8 := c.Rule("C19.R8", "K-ORDER+K-STATE", A+": the write authoriser resolves the user afresh on every call and keeps no state")
+	if f := fn(r8, A+":WriteAuthorizer.AuthorizeWrite"); f != nil {
+		look := f.Find(call(r8, "lib/metaclient:Client.User"))
+		ok := f.Find(an.ReturnsNilErr())
+		if !r8.Failed() {
+			f.Precedes(r8, look, ok, an.OrderOpt{Success: true, Label: "Client.User(success) ≺ authorised"})
+			f.BranchReturns(r8, an.AtomLike(`\.AuthorizeDatabase\(influxql\.WritePrivilege,p1\)`, false), an.MReturn("of an authorisation error", func(g *an.Fn, rs *ast.ReturnStmt) bool {
+				return len(rs.Results) == 1 && !an.IsNilIdent(g.Info, rs.Results[0])
+			}), "a user without the write privilege is refused")
+		}
+	}
+	for _, ty := range []string{"WriteAuthorizer", "QueryAuthorizer"} {
+		tn, _ := obj(r8, A+":"+ty).(*types.TypeName)
+		if tn == nil {
+			continue
+		}
+		st, ok := tn.Type().Underlying().(*types.Struct)
+		if !ok {
+			continue
+		}
+		r8.AddSites(st.NumFields())
+		for i := 0; i < st.NumFields(); i++ {
+			fld := st.Field(i)
+			if fld.Name() == "Client" {
+				continue
+			}
+			r8.Fail(ty+"."+fld.Name()+": state", c.P.Pos(fld.Pos()), "%s has the member %s besides its meta client: an authoriser that remembers users or decisions keeps authorising after REVOKE / DROP USER", ty, fld.Name())
+		}
+	}
 }
